@@ -12,6 +12,11 @@ REPO = os.environ.get('VERIF_SELFTEST_SRC', '/repo')
 
 def scratch():
     d = tempfile.mkdtemp(prefix='verif-scratch-')
+    if REPO.startswith('git:'):
+        # sources as committed (tooling only: used while /repo is transiently patched by a seed confirmation)
+        subprocess.run('git -C /repo archive %s src | tar -x -C %s' % (REPO[4:], d), shell=True, check=True)
+        shutil.copy('/repo/libTMCG_config.h', d)
+        return d
     os.makedirs(os.path.join(d, 'src'))
     for f in os.listdir(os.path.join(REPO, 'src')):
         if f.endswith(('.cc', '.hh', '.h', '.am')):
@@ -21,6 +26,12 @@ def scratch():
 
 
 def apply(d, m):
+    if 'edits' in m:
+        for ed in m['edits']:
+            err = apply(d, ed)
+            if err:
+                return err
+        return None
     p = os.path.join(d, m['file'])
     s = open(p).read()
     cnt = s.count(m['old'])
@@ -68,6 +79,7 @@ def main():
     names = set(a for a in sys.argv[1:] if a not in props)
     fails = 0
     total = 0
+    skipped = 0
     for fn, fire in (('mutants.json', True), ('neutral.json', False)):
         path = os.path.join(VERIF, 'selftest', fn)
         if not os.path.exists(path):
@@ -79,10 +91,19 @@ def main():
                 continue
             total += 1
             ok, msg = run_one(m, fire)
+            if not ok and msg.startswith('cannot apply'):
+                # the text this case edits is not in the current tree (the tree under test differs
+                # from the one the case was written for): inconclusive, not a failure of the rules
+                skipped += 1
+                print('%s %-8s %-40s %s' % ('skip', m['property'], m['name'], msg))
+                continue
             print('%s %-8s %-40s %s' % ('ok  ' if ok else 'FAIL', m['property'], m['name'], msg if not ok else msg))
             if not ok:
                 fails += 1
-    print('selftest: %d cases, %d failures' % (total, fails))
+    print('selftest: %d cases, %d failures, %d skipped' % (total, fails, skipped))
+    if total and skipped * 2 > total:
+        print('selftest: more than half of the cases do not apply to this tree')
+        return 1
     return 1 if fails else 0
 
 
